@@ -407,7 +407,9 @@ class World(object):
             return UNK
         o = i.new_obj(st, label="cipher")
         h = st.heap[o.ident]
-        h.update({"kind": "cipher", "mode": mode, "key": bytes(key), "block_size": 16})
+        # `vparam` stands for a cipher-specific parameter (ARC2's effective_keylen, ...): it changes the permutation
+        vp = kw.get("vparam")
+        h.update({"kind": "cipher", "mode": mode, "key": bytes(key) + (b"|vp%d" % vp if isinstance(vp, int) else b""), "block_size": 16})
         if mode == MODE["CBC"]:
             iv = a[2] if len(a) > 2 else kw.get("iv", kw.get("IV"))
             if not isinstance(iv, (bytes, bytearray)) or len(iv) != 16:
@@ -737,7 +739,13 @@ def run_mode(repo, name, cfg):
                            "gcm": ("Crypto.Cipher._mode_gcm", "_create_gcm_cipher", lambda: ref_gcm(key, nonce, header, msg, tlen)),
                            "ocb": ("Crypto.Cipher._mode_ocb", "_create_ocb_cipher", lambda: ref_ocb(key, nonce, header, msg, tlen)),
                            "chachapoly": ("Crypto.Cipher.ChaCha20_Poly1305", "new", lambda: ref_chacha_poly(key, nonce, header, msg))}[name]
-    want_c, want_t = ref()
+    if cfg.get("vparam") is not None:
+        # every underlying cipher instance (MAC, CTR, subkey derivation) must receive the extra cipher parameter
+        real_key, key = key, key + b"|vp%d" % cfg["vparam"]
+        want_c, want_t = ref()
+        key = real_key
+    else:
+        want_c, want_t = ref()
     conv = {"bytearray": bytearray, "memoryview": lambda b: memoryview(bytearray(b))}.get(how)
     if conv:
         # the caller's buffers are bytearrays / memoryviews: same bytes out, and the buffers are not written to
@@ -771,6 +779,8 @@ def run_mode(repo, name, cfg):
             kw["assoc_len"] = len(header)
         if cfg["how"] == "declared0":
             kw["msg_len"] = 0
+        if cfg.get("vparam") is not None:
+            kw["vparam"] = cfg["vparam"]
         o = w.create(modname, fname, **kw)
         return w, o
     # ---- sender
@@ -920,6 +930,10 @@ def configs(name, thorough=False):
                     variants = [variants[(ml + hl) % len(variants)]] + ([variants[0]] if (ml, hl) in ((17, 21), (0, 0)) else [])
                 for nonce, tlen in variants:
                     out.append(dict(key=key, nonce=nonce, header=pat(hl, 0x30), msg=pat(ml, 0x90), tlen=tlen, how=how))
+    if name in ("eax", "gcm", "ccm"):
+        nonce, tlen = {"eax": (pat(16, 1), 16), "ccm": (pat(11, 1), 16)}.get(name, (pat(12, 1), 16))
+        for ml, hl in ((20, 7), (0, 16)):
+            out.append(dict(key=pat(16, 0x39), nonce=nonce, header=pat(hl, 0x30), msg=pat(ml, 0x90), tlen=tlen, how="one", vparam=5))
     # associated data only, never a call of encrypt() / decrypt(): the tag of the empty message
     # (SIV is left out: digest() without encrypt() authenticates the vector without the empty plaintext component, which
     #  is not the tag of the empty message - observed, see DESIGN I.5)
